@@ -375,9 +375,9 @@ Proof.
   - apply K. reflexivity.
   - destruct (index_tape c (t :: t0) 0 0 None true false (db (set_db s p))) as [p2 [u| | |e]].
     + destruct (get_root_path p2); cbn. apply extends_refl.
-    + apply K. reflexivity.
-    + apply K. reflexivity.
-    + apply K. reflexivity.
+    + destruct (get_root_path p2) as [p3 [r1|]]; [apply extends_refl|apply K; reflexivity].
+    + destruct (get_root_path p2) as [p3 [r1|]]; [apply extends_refl|apply K; reflexivity].
+    + destruct (get_root_path p2) as [p3 [r1|]]; [apply extends_refl|apply K; reflexivity].
 Qed.
 
 Theorem step_extends c s k : extends (tp s) (tp (fst (step c s k))).
